@@ -38,6 +38,7 @@ type verifAssets struct {
 	topics      *flows.TopicAssets
 	users       *flows.UserAssets
 	resthooks   *flows.ResthookAssets
+	labels      *flows.LabelAssets
 	realFlows   flows.FlowAssets // when set: the real flow assets (JSON definitions from a source) instead of the stub
 }
 
@@ -54,7 +55,12 @@ func (a *verifAssets) Users() *flows.UserAssets {
 	}
 	return flows.NewUserAssets(nil)
 }
-func (a *verifAssets) Labels() *flows.LabelAssets       { return flows.NewLabelAssets(nil) }
+func (a *verifAssets) Labels() *flows.LabelAssets {
+	if a.labels != nil {
+		return a.labels
+	}
+	return flows.NewLabelAssets(nil)
+}
 func (a *verifAssets) Templates() *flows.TemplateAssets { return flows.NewTemplateAssets(nil) }
 func (a *verifAssets) Resthooks() *flows.ResthookAssets { return flows.NewResthookAssets(nil) }
 func (a *verifAssets) OptIns() *flows.OptInAssets       { return flows.NewOptInAssets(nil) }
